@@ -323,7 +323,24 @@ func (w *World) callResolved(fr *Frame, st *State, c *ssa.CallCommon, ct *Contra
 	}
 	w.sc.comment("havoc: call to " + name + " without contract")
 	w.havocked = append(w.havocked, name)
+	keep := map[string]Term{}
+	if w.topContract != nil && len(w.topContract.UnknownPreserve) > 0 {
+		var pkg *types.Package
+		if p := w.l.All[w.topContract.Pkg]; p != nil {
+			pkg = p.Types
+		}
+		env := &CEnv{w: w, pkg: pkg, vars: map[string]*Val{}, cur: st, old: st}
+		for _, pe := range w.topContract.UnknownPreserve {
+			for _, k := range w.preservedKeys(env, pe) {
+				keep[k] = w.hget(st, k)
+			}
+		}
+		w.assumption("in " + w.topContract.Name + ", calls without a contract are assumed to leave the heap keys of its unknown_calls_preserve clause unchanged")
+	}
 	w.havocAll(st)
+	for k, v := range keep {
+		st.heap[k] = v
+	}
 	return w.freshResult(st, sig, "ret")
 }
 
